@@ -1481,6 +1481,41 @@ def trig_multiple_lines(rng, fmts, modes=("E", "A"), kmax=81):
     return lines
 
 
+def powi_guard_lines(rng, per):
+    """powi with exponents 15..1023 in formats whose precision sits next to a multiple of 64 (63, 64, 65, 127, 128, 191, 255):
+    the working precision of powi is p + 2 bits, and any shortfall of the guard bits shows as a fraction of a per cent of the
+    arguments exceeding 1 + n/4 ulps only for n >= 15"""
+    lines = []
+    for (E, P) in [(15, 63), (11, 127), (15, 191), (19, 255), (15, 64), (15, 65)]:
+        for m in MODES:
+            s = Sem(E, P, m)
+            for _ in range(per):
+                n = rng.choice([15, 31, 63, 127, 255, 511, 1023, rng.randrange(15, 1024)])
+                # x in [1, 2) close enough to 1 that x^n stays finite
+                lim = min(s.emax - 1, 600)
+                top = 2 ** P - 1 if n * 1 <= lim else 2 ** (P - 1) + int((2 ** (P - 1)) * min(1.0, 0.69 * lim / n))
+                mant = rng.randrange(2 ** (P - 1), max(2 ** (P - 1) + 1, top))
+                lines.append("powi %s %d %s" % (s, n, ftok("N", rng.randrange(2), 0, mant)))
+    return lines
+
+
+def pow_wide_exponent_lines(rng, per):
+    """pow in formats with 22 and more exponent bits, bases with exponents beyond 2^20 (both parities) and below -2^20:
+    the logarithm's square-root chain starts from there"""
+    lines = []
+    for (E, P) in [(22, 53), (24, 24), (22, 64)]:
+        for m in ("E", "A"):
+            s = Sem(E, P, m)
+            for _ in range(per):
+                ex = rng.choice([2 ** 20 + 1, 2 ** 20 + 2, 2 ** 20 + 3, 2 ** 20 + 1000, 2 ** 20 + 1001, -(2 ** 20) - 1, -(2 ** 20) - 2, 2 ** 20 - 1, s.emax - 1, s.emin + 1])
+                x = ftok("N", 0, ex, rand_mant(rng, P) if rng.randrange(2) else 2 ** (P - 1))
+                # |y ln x| <= 512  ->  |y| <= 512 / (|ex| ln 2)
+                ye = -12 - rng.randrange(0, 4)
+                y = ftok("N", rng.randrange(2), ye, rand_mant(rng, P))
+                lines.append("pow %s %s %s" % (s, x, y))
+    return lines
+
+
 def pow_large_lines(rng, fmts, per, modes=("E", "A")):
     """pow with 100 <= |y ln x| <= 512 (error amplification through exp)"""
     import math
